@@ -456,6 +456,20 @@ Section Lockset.
     apply (disc_no_never [] (proj t tr) (Hd t) (Wr x) Hi). exact Hn.
   Qed.
 
+  (* A lock that is never acquired in the trace is never held: an access that needs it
+     cannot belong to a disciplined thread. *)
+  Corollary needs_unacquired : forall tr,
+    (forall t, disciplined (proj t tr)) ->
+    forall l, (forall t m, ~ In (t, Acq l m) tr) ->
+    forall t e m, ev_need e = Need l m -> ~ In (t, e) tr.
+  Proof.
+    intros tr Hd l Hna t e m Hn Hi.
+    apply in_split in Hi. destruct Hi as (a & c & Htr).
+    destruct (access_held tr a t e c l m Htr (Hd t) Hn) as (m' & Hh & _).
+    destruct (gain (t, (l, m')) a [] (fun H => H) Hh) as (a1 & a2 & Ha). cbn in Ha.
+    apply (Hna t m'). rewrite Htr, Ha. apply in_or_app. left. apply in_or_app. right. left. reflexivity.
+  Qed.
+
   (* Two writes whose requirement is the same lock in mode W (e.g. a location
      owned by a view) are ordered likewise: instance of lockset_sound. *)
   Corollary writes_ordered : forall tr,
